@@ -215,6 +215,13 @@ theorem has_append_self (ds : Dirs β) (c x : Id) (v : Option (Data β)) :
 def At (bk : Backend) (F : Store β) (x : Id) : Prop :=
   F.cur = x ∧ (bk = .disk → F.has x = true) ∧ (bk = .mem → ∀ p ∈ F.dirs, p.1 = x)
 
+theorem At.mk_disk {F : Store β} {x : Id} (hc : F.cur = x) (hh : F.has x = true) : At .disk F x :=
+  ⟨hc, fun _ => hh, fun h => Backend.noConfusion h⟩
+
+theorem At.mk_mem {F : Store β} {x : Id} (hc : F.cur = x) (hk : ∀ p ∈ F.dirs, p.1 = x) :
+    At .mem F x :=
+  ⟨hc, fun h => Backend.noConfusion h, fun _ => hk⟩
+
 theorem At.wf {bk : Backend} {F : Store β} {x : Id} (hx1 : x ≠ "") (hx2 : x ≠ "?")
     (h : At bk F x) : WF bk F := by
   obtain ⟨hc, hd, hm⟩ := h
@@ -454,5 +461,310 @@ theorem handle_shape (h : Hist β) (L : Leader β) (hL : L.Faithful h) (rid : Id
             by_cases h4 : roff - latest L.data > 0
             · rw [if_pos h4]; exact .handover _
             · rw [if_neg h4]; exact sendData_shape h L hL rid hid _ _
+
+
+/-! ### the follower's steps -/
+
+theorem aofWrite_ok {h : Hist β} (bk : Backend) (F : Store β) (x : Id) (left : Nat) (p : List β)
+    (id : Id) (hat : At bk F x) (hp : p = hseg h x left p.length) (hf : FaithfulAt h F.dirs id)
+    (F2 : Store β) (hw : aofWrite F left p = some F2) : At bk F2 x ∧ FaithfulAt h F2.dirs id := by
+  have hc : F.cur = x := hat.1
+  unfold aofWrite at hw
+  split at hw
+  · -- nothing stored yet
+    cases p with
+    | nil => simp only [Option.some.injEq] at hw; subst hw; exact ⟨hat, hf⟩
+    | cons a as =>
+      simp only [Option.some.injEq] at hw
+      subst hw
+      refine ⟨setCur_at _ _ _ _ hat, setCur_faithful _ _ _ ?_ hf⟩
+      intro hid d hd
+      cases hd
+      rw [hid, hc]
+      exact ⟨hp, fun s hs => by cases hs⟩
+  · next d hd =>
+    split at hw
+    · next hr =>
+      simp only [Option.some.injEq] at hw
+      subst hw
+      refine ⟨setCur_at _ _ _ _ hat, setCur_faithful _ _ _ ?_ hf⟩
+      intro hid d' hd'
+      cases hd'
+      have hdf := hf d (by rw [hid]; exact curData_mem hd)
+      rw [hid, hc] at hdf ⊢
+      refine ⟨?_, hdf.2⟩
+      simp only [List.length_append]
+      rw [hseg_append, ← hdf.1]
+      congr 1
+      simp only [Data.right] at hr
+      rw [hr]
+      exact hp
+    · cases hw
+
+theorem newRunIdDisk_at (F : Store β) (x : Id) (hx1 : x ≠ "") (hx2 : x ≠ "?") :
+    At .disk (newRunIdDisk F x) x ∧ Sub (newRunIdDisk F x).dirs F.dirs := by
+  have hsp := special_false hx1 hx2
+  cases hh : F.has x with
+  | true =>
+    rw [newRunIdDisk_has hsp hh]
+    refine ⟨⟨rfl, fun _ => hh, ?_⟩, Sub.refl _⟩
+    intro h; cases h
+  | false =>
+    rw [newRunIdDisk_new hsp hh]
+    refine ⟨⟨rfl, fun _ => has_append_self _ _ _ _, ?_⟩, sub_append_none _ _⟩
+    intro h; cases h
+
+/-- `SetRunId(x)` of a follower that has already adopted `x` changes nothing -/
+theorem setRunId_at (bk : Backend) (F : Store β) (x : Id) (hx1 : x ≠ "") (hx2 : x ≠ "?")
+    (h : At bk F x) : setRunId bk F x = F := by
+  obtain ⟨hc, hd, hm⟩ := h
+  cases bk with
+  | disk => rw [setRunId_disk_has (special_false hx1 hx2) (hd rfl), ← hc]
+  | mem =>
+    simp only [setRunId]
+    have : F.dirs.map (fun p => (x, p.2)) = F.dirs := by
+      conv => rhs; rw [← List.map_id F.dirs]
+      apply List.map_congr_left
+      intro p hp
+      have := hm rfl p hp
+      simp [← this]
+    rw [this, ← hc]
+
+theorem adopt_ok (bk : Backend) (F : Store β) (x : Id) (hx1 : x ≠ "") (hx2 : x ≠ "?")
+    (hwf : WF bk F) : At bk (adopt bk F x) x ∧ Sub (adopt bk F x).dirs F.dirs := by
+  unfold adopt
+  cases bk with
+  | disk =>
+    obtain ⟨hcur, hq⟩ := hwf
+    by_cases hc : F.cur = ""
+    · have : (F.cur ≠ "" && F.cur ≠ x) = false := by simp [hc]
+      rw [this]
+      simp only [Bool.false_eq_true, if_false]
+      rw [setRunId_disk_nocur hc]
+      exact newRunIdDisk_at F x hx1 hx2
+    · have hhc : F.has F.cur = true := hcur.resolve_left hc
+      by_cases hcx : F.cur = x
+      · have : (F.cur ≠ "" && F.cur ≠ x) = false := by simp [hcx]
+        rw [this]
+        simp only [Bool.false_eq_true, if_false]
+        have hat : At .disk F x := At.mk_disk hcx (hcx ▸ hhc)
+        rw [setRunId_at .disk F x hx1 hx2 hat]
+        exact ⟨hat, Sub.refl _⟩
+      · have : (F.cur ≠ "" && F.cur ≠ x) = true := by simp [hc, hcx]
+        rw [this]
+        simp only [if_true]
+        rw [delRunId_disk_has (special_false hc hq) hhc, setRunId_disk_nocur rfl]
+        have := newRunIdDisk_at (⟨"", dropKey F.dirs F.cur⟩ : Store β) x hx1 hx2
+        exact ⟨this.1, Sub.trans this.2 (sub_dropKey _ _)⟩
+  | mem =>
+    obtain ⟨hkeys, hnil, hq⟩ := hwf
+    by_cases hcx : F.cur = x
+    · have : (F.cur ≠ "" && F.cur ≠ x) = false := by simp [hcx]
+      rw [this]
+      simp only [Bool.false_eq_true, if_false]
+      have hat : At .mem F x := At.mk_mem hcx (fun p hp => by rw [← hcx]; exact hkeys p hp)
+      rw [setRunId_at .mem F x hx1 hx2 hat]
+      exact ⟨hat, Sub.refl _⟩
+    · have hempty : (if (F.cur ≠ "" && F.cur ≠ x) = true then delRunId .mem F F.cur else F).dirs = [] := by
+        by_cases hc : F.cur = ""
+        · have : (F.cur ≠ "" && F.cur ≠ x) = false := by simp [hc]
+          rw [this]
+          simpa using hnil hc
+        · have : (F.cur ≠ "" && F.cur ≠ x) = true := by simp [hc, hcx]
+          rw [this]
+          simp only [if_true]
+          rw [delRunId_mem_cur]
+      simp only [setRunId, hempty, List.map_nil]
+      refine ⟨⟨rfl, ?_, ?_⟩, Sub.nil _⟩
+      · intro h; cases h
+      · intro _ p hp; cases hp
+
+/-- `StartPoint([x])` keeps every directory; when it answers with `x` itself the follower
+    has adopted `x` -/
+theorem startPoint_ok (bk : Backend) (F : Store β) (x : Id) (hx1 : x ≠ "") (hx2 : x ≠ "?")
+    (hwf : WF bk F) :
+    WF bk (startPoint bk F x).1 ∧ (startPoint bk F x).1.dirs = F.dirs ∧
+      ((startPoint bk F x).2.1 = x → At bk (startPoint bk F x).1 x) := by
+  have hsp := special_false hx1 hx2
+  cases bk with
+  | disk =>
+    simp only [startPoint, hsp, Bool.false_eq_true, if_false]
+    cases hg : F.get x with
+    | none =>
+      have hnx : F.has x = false := by simp [Store.has, hg]
+      refine ⟨hwf, rfl, ?_⟩
+      simp only
+      intro he
+      obtain ⟨hcur, _⟩ := hwf
+      by_cases hc : F.cur = ""
+      · simp [hc] at he; exact absurd he.symm hx2
+      · simp only [hc, if_false] at he
+        have hhc : F.has F.cur = true := hcur.resolve_left hc
+        rw [he, hnx] at hhc; cases hhc
+    | some v =>
+      have hhx : F.has x = true := by simp [Store.has, hg]
+      have hset : setRunId .disk F x = { F with cur := x } := setRunId_disk_has hsp hhx
+      have hat : At .disk ({ F with cur := x } : Store β) x := by
+        refine ⟨rfl, fun _ => hhx, ?_⟩
+        intro h; cases h
+      simp only [hset]
+      split <;> exact ⟨hat.wf hx1 hx2, rfl, fun _ => hat⟩
+  | mem =>
+    simp only [startPoint]
+    split
+    · next hc =>
+      have hxc : x = F.cur := by simpa [hsp] using hc
+      refine ⟨hwf, rfl, fun _ => ⟨hxc.symm, ?_, ?_⟩⟩
+      · intro h; cases h
+      · intro _ p hp; rw [hxc]; exact hwf.1 p hp
+    · refine ⟨hwf, rfl, ?_⟩
+      intro he
+      exact absurd he.symm hx2
+
+theorem preSync_ok (bk : Backend) (F : Store β) (x : Id) (loff : Int) (hx1 : x ≠ "")
+    (hx2 : x ≠ "?") (hwf : WF bk F) :
+    At bk (preSync bk F x loff).1 x ∧ (preSync bk F x loff).2.1 = x ∧
+      Sub (preSync bk F x loff).1.dirs F.dirs := by
+  unfold preSync
+  have hs := startPoint_ok bk F x hx1 hx2 hwf
+  generalize startPoint bk F x = r at hs ⊢
+  obtain ⟨F1, sp⟩ := r
+  obtain ⟨hwf1, hd1, hat1⟩ := hs
+  simp only at hwf1 hd1 hat1 ⊢
+  split
+  · have := adopt_ok bk F1 x hx1 hx2 hwf1
+    exact ⟨this.1, rfl, hd1 ▸ this.2⟩
+  · next hcond =>
+    have hspx : sp.1 = x := by
+      simp only [Bool.or_eq_true, decide_eq_true_eq, not_or, ne_eq, Decidable.not_not] at hcond
+      exact hcond.2
+    have hat := hat1 hspx
+    split
+    · split
+      · have := reset_at bk F1 x hx1 hx2 hat
+        rw [hspx]
+        exact ⟨this.1, rfl, hd1 ▸ this.2.1⟩
+      · rw [setRunId_at bk F1 x hx1 hx2 hat]
+        exact ⟨hat, hspx, hd1 ▸ Sub.refl _⟩
+    · exact ⟨hat, hspx, hd1 ▸ Sub.refl _⟩
+
+
+@[simp] theorem Out.pre_store (ms : List (Msg β)) (o : Out β) : (Out.pre ms o).store = o.store := rfl
+
+theorem aofRecv_ok {h : Hist β} (bk : Backend) (F1 : Store β) (x : Id) (ms : List (Msg β))
+    (fin : Fin) (budget lost : Nat) (id : Id) (hx1 : x ≠ "") (hx2 : x ≠ "?") (hat : At bk F1 x)
+    (off : Int) (cs : List (List β)) (k : Nat) (hms : ms = conts off cs)
+    (hb : cs.flatten = hseg h x off.toNat k) (hf : FaithfulAt h F1.dirs id) :
+    WF bk (aofRecv F1 off.toNat ms fin budget lost).store ∧
+      FaithfulAt h (aofRecv F1 off.toNat ms fin budget lost).store.dirs id := by
+  unfold aofRecv
+  -- the bytes written are a prefix of the leader's bytes from `off`
+  have hp : ∀ n : Nat, (aofLoop fin budget ms).2.1.take n =
+      hseg h x off.toNat ((aofLoop fin budget ms).2.1.take n).length := by
+    intro n
+    apply hseg_prefix h x off.toNat k
+    have := aofLoop_prefix fin budget ms
+    rw [hms, pay_conts, hb] at this
+    rw [hms]
+    exact (List.take_prefix _ _).trans this
+  simp only
+  split
+  · exact ⟨hat.wf hx1 hx2, hf⟩
+  · next F2 hw =>
+    have := aofWrite_ok bk F1 x off.toNat _ id hat (hp _) hf F2 hw
+    exact ⟨this.1.wf hx1 hx2, this.2⟩
+
+theorem aofSync_ok {h : Hist β} (bk : Backend) (F : Store β) (x : Id) (ms : List (Msg β))
+    (fin : Fin) (budget lost : Nat) (id : Id) (hx1 : x ≠ "") (hx2 : x ≠ "?") (hat : At bk F x)
+    (off : Int) (cs : List (List β)) (k : Nat) (hms : ms = conts off cs)
+    (hb : cs.flatten = hseg h x off.toNat k) (hf : FaithfulAt h F.dirs id) :
+    WF bk (aofSync bk F x ⟨.info, "", true, off, -1, []⟩ ms fin budget lost).store ∧
+      FaithfulAt h (aofSync bk F x ⟨.info, "", true, off, -1, []⟩ ms fin budget lost).store.dirs id := by
+  simp only [aofSync]
+  rw [startPoint_at bk F x hx1 hx2 hat]
+  split
+  · have := reset_at bk F x hx1 hx2 hat
+    exact aofRecv_ok bk _ x ms fin budget lost id hx1 hx2 this.1 off cs k hms hb (hf.of_sub this.2.1)
+  · exact aofRecv_ok bk _ x ms fin budget lost id hx1 hx2 hat off cs k hms hb hf
+
+theorem syncLoop_ok {h : Hist β} (bk : Backend) (L : Leader β) (lost : Nat) (x : Id) (id : Id)
+    (hx1 : x ≠ "") (hx2 : x ≠ "?") (hL : L.Faithful h) :
+    ∀ (fuel budget : Nat) (ch : List Nat) (F : Store β) (fsp : Id × Int), At bk F x → fsp.1 = x →
+      FaithfulAt h F.dirs id →
+      WF bk (syncLoop bk L lost x fuel budget ch F fsp).store ∧
+        FaithfulAt h (syncLoop bk L lost x fuel budget ch F fsp).store.dirs id := by
+  intro fuel
+  induction fuel with
+  | zero => intro budget ch F fsp hat _ hf; exact ⟨hat.wf hx1 hx2, hf⟩
+  | succ fuel ih =>
+    intro budget ch F fsp hat hfx hf
+    have hwf := hat.wf hx1 hx2
+    unfold syncLoop
+    have hs := handle_shape h L hL fsp.1 fsp.2 ch
+    generalize L.handle fsp.1 fsp.2 ch = rp at hs ⊢
+    obtain ⟨msgs, fin, rest⟩ := rp
+    simp only at hs ⊢
+    cases budget with
+    | zero => exact ⟨hwf, hf⟩
+    | succ b =>
+      cases hs with
+      | silent => exact ⟨hwf, hf⟩
+      | ctl c hc =>
+        rcases hc with rfl | rfl | rfl
+        · exact ⟨hwf, hf⟩
+        · -- CLEAR: the run id is deleted
+          simp only [ctl, respErr, Out.pre_store, if_true]
+          rw [hfx]
+          cases bk with
+          | disk =>
+            rw [delRunId_disk_has (special_false hx1 hx2) (hat.2.1 rfl)]
+            exact ⟨⟨Or.inl rfl, by decide⟩, hf.of_sub (sub_dropKey _ _)⟩
+          | mem =>
+            rw [← hat.1, delRunId_mem_cur]
+            exact ⟨⟨fun p hp => by cases hp, fun _ => rfl, by decide⟩, hf.of_sub (Sub.nil _)⟩
+        · exact ⟨hwf, hf⟩
+      | hello o hr =>
+        rw [hfx] at hr
+        rcases hr with hr | hr
+        · exact absurd hr hx1
+        · exact absurd hr hx2
+      | handover o => exact ⟨hwf, hf⟩
+      | aof off cs k hid h0 hb =>
+        simp only [respErr, Out.pre_store, Code.info.injEq, reduceCtorEq, if_false, if_true]
+        rw [hfx] at hb ⊢
+        exact aofSync_ok bk F x _ fin b lost id hx1 hx2 hat off cs k rfl hb hf
+      | rdb off base s cs hid hs hb =>
+        simp only [respErr, Out.pre_store, reduceCtorEq, if_false, Bool.false_eq_true]
+        rw [hfx] at hs ⊢
+        have hr := reset_at bk F x hx1 hx2 hat
+        generalize setRunId bk (delRunId bk F x) x = F1 at hr ⊢
+        obtain ⟨hat1, hsub1, _⟩ := hr
+        have hf1 : FaithfulAt h F1.dirs id := hf.of_sub hsub1
+        have hsz : (s.length : Int).toNat = cs.flatten.length := by rw [hb]; simp
+        rw [hsz]
+        split
+        · -- interrupted: no snapshot is kept
+          have hat2 := setCur_at bk F1 x none hat1
+          refine ⟨hat2.wf hx1 hx2, setCur_faithful _ _ _ ?_ hf1⟩
+          intro _ d hd; cases hd
+        · next hcomp =>
+          simp only [Out.pre_store]
+          have hall := rdbLoop_conts_complete fin b off cs hcomp
+          rw [hall]
+          have hat2 := setCur_at bk F1 x (some ⟨(base : Int).toNat, [], some (cs.flatten.take cs.flatten.length)⟩) hat1
+          have hf2 : FaithfulAt h (F1.setCur (some ⟨(base : Int).toNat, [], some (cs.flatten.take cs.flatten.length)⟩)).dirs id := by
+            apply setCur_faithful _ _ _ _ hf1
+            intro hid' d hd
+            cases hd
+            rw [hid', hat1.1]
+            refine ⟨by simp [hseg], ?_⟩
+            intro s' hs'
+            simp only [Option.some.injEq] at hs'
+            rw [← hs', List.take_length, hb, hs]
+            simp
+          generalize F1.setCur (some ⟨(base : Int).toNat, [], some (cs.flatten.take cs.flatten.length)⟩) = F2 at hat2 hf2 ⊢
+          have hsp := startPoint_ok bk F2 x hx1 hx2 (hat2.wf hx1 hx2)
+          have hst := startPoint_at bk F2 x hx1 hx2 hat2
+          sorry
 
 end GunYu.Replica
